@@ -67,7 +67,7 @@ def weight : Val → Int
   | .int n => n | .bool b => if b then 1 else 0 | .list xs => xs.length | .err => 0
 
 def excOfName? : String → Option Exc
-  | "ValueError" => some .valueError | "TypeError" => some .typeError | "KeyError" => some .keyError
+  | "ValueError" => some .valueError | "UnicodeError" => some .valueError | "TypeError" => some .typeError | "KeyError" => some .keyError
   | "AttributeError" => some .attributeError | "IndexError" => some .indexError
   | "ZeroDivisionError" => some .zeroDiv | "RuntimeError" => some .other
   | _ => none
